@@ -380,7 +380,7 @@ pub fn generate(seed: u64, index: u64, thorough: bool) -> Scenario {
         let err = *rng.pick(&[ErrTy::JsonError, ErrTy::JsonError, ErrTy::Tok]);
         if framework == Framework::ActixQuery {
             // query strings: repeated keys, percent-encoding, malformed escapes, empty
-            let parts = ["q=hello", "q=a%20b", "limit=10", "page=2", "q=%E9", "q=%zz", "limit=", "=x", "unknown=1", "q=1&q=2", "q=h%C3%A9llo", "limit=10&limit=20", "a[b]=c", "+q=+x+"];
+            let parts = ["q=hello", "q=a%20b", "limit=10", "page=2", "q=%E9", "q=%zz", "limit=", "=x", "unknown=1", "q=1&q=2", "q=h%C3%A9llo", "limit=10&limit=20", "a[b]=c", "+q=+x+", "?q=doggo", "?", "q=a?b", "&", "q", "q==", "%71=y", "q=x;limit=1", "page=%32"];
             let k = rng.below(4);
             let mut q: Vec<&str> = vec![];
             for _ in 0..k {
